@@ -262,7 +262,9 @@ func VerifFixtureWrap() {
 	}
 	de, err := UnixFSFile(*ls, 1+verifrt.Choose(2), WithRandReader(rr), WithChunker("size-2"))
 	verifrt.Assert(err == nil, "fixture:generator-ok")
-	paths := []string{"a", "a/b", "/a/b/c/"}
+	// (path rules of go-ipld-prime: leading, trailing and repeated slashes are ignored; a
+	// path without segments wraps nothing)
+	paths := []string{"a", "a/b", "/a/b/c/", "a//b", "", "/"}
 	wp := paths[verifrt.Choose(len(paths))]
 	exclusive := verifrt.Choose(2) == 1
 	var wrapped DirEntry
@@ -274,7 +276,16 @@ func VerifFixtureWrap() {
 	readBackByName(ls, wrapped)
 	// the wanted content is reachable under the path, with its bytes
 	cur := wrapped
-	for _, seg := range strings.Split(strings.Trim(wp, "/"), "/") {
+	var segs []string
+	for _, seg := range strings.Split(wp, "/") {
+		if seg != "" {
+			segs = append(segs, seg)
+		}
+	}
+	if len(segs) == 0 {
+		verifrt.Reach("empty-path")
+	}
+	for _, seg := range segs {
 		var next *DirEntry
 		for i := range cur.Children {
 			if cur.Children[i].Path == seg {
